@@ -48,7 +48,7 @@ RULE = (
     "one instant not judged; timestamp = (value, clock reading as datetime); time_interval = (value, time since previous "
     "element or since subscription). Non-trivial: delay: >=2 elements and some element still pending when a later notification "
     "arrives; delay_subscription: d>0 and >=1 element; delay_with_mapper: >=2 elements and >=1 duration firing strictly later "
-    "than its element; timestamp/time_interval: >=2 elements. Every check except delay_with_mapper_subdelay subscribes, in 1 case of 3, the same built observable a second time at a generated tick s1 in s0+{0,1,2,3,7} and applies the same oracle to that probe with its own subscribe tick (absolute due time D: expected shift D - s1). Scheduler passing: operators with a scheduler parameter (delay, delay_subscription, timestamp, time_interval) are run in three modes - sub (no argument, subscription carries scheduler=lab scheduler), arg (scheduler=lab scheduler as operator argument, subscription carries none), arg-other (argument as before, subscription carries a different never-started virtual scheduler whose clock reads +1000 ticks; not for delay_subscription) - and must behave identically; one in four duration / subscription-delay observables of delay_with_mapper is a scheduler-less library factory (timer(d), empty(), return_value, never) that must inherit the subscribe-time scheduler. Any request for the real-time TimeoutScheduler during a run is refused and reported (realtime-fallback), any action left on the decoy scheduler is reported (wrong-scheduler). Distinct = distinct case JSON."
+    "than its element; timestamp/time_interval: >=2 elements. Every check except delay_with_mapper_subdelay subscribes, in 1 case of 3, the same built observable a second time at a generated tick s1 in s0+{0,1,2,3,7} and applies the same oracle to that probe with its own subscribe tick (absolute due time D: expected shift D - s1). Scheduler passing: operators with a scheduler parameter (delay, delay_subscription, timestamp, time_interval) are run in three modes - sub (no argument, subscription carries scheduler=lab scheduler), arg (scheduler=lab scheduler as operator argument, subscription carries none), arg-other (argument as before, subscription carries a different never-started virtual scheduler whose clock reads +1000 ticks; not for delay_subscription) - and must behave identically; one in four duration / subscription-delay observables of delay_with_mapper is a scheduler-less library factory (timer(d), empty(), return_value, never) that must inherit the subscribe-time scheduler. Any request for the real-time TimeoutScheduler during a run is refused and reported (realtime-fallback), any action left on the decoy scheduler is reported (wrong-scheduler). Thorough tier goes deeper: up to 10 elements per timeline (8 for delay_with_mapper), half of them dense (gaps 0-2), delays up to 8 ticks. Distinct = distinct case JSON."
 )
 ASSUMPTIONS = [
     "absolute datetimes passed to delay/delay_subscription are not earlier than the subscription instant",
@@ -111,6 +111,11 @@ def _judge_delay(case, lab, p, s):
         cls.append("element-due-at-error-instant")
     if any(b - a == d for a, b in zip(ts, ts[1:])):
         cls.append("gap=d")
+    if n >= 7:
+        cls.append("timeline>=7-elements")
+    depth = max([sum(1 for m in eff if m[0] <= x[0] < m[0] + d) for x in eff] or [0])
+    if depth >= 7:
+        cls.append("pending>=7")
     return judge("delay", case, lab, p, outcomes(lambda ch: _exp_delay(eff, d, ch)), cls, n >= 2 and pending)
 
 
@@ -331,9 +336,9 @@ def _judge_stamp(case, lab, p, s0, which):
 
 # ------------------------------------------------------------------------------ strategies
 @st.composite
-def _delay_cases(draw, abs_ok=True, other_ok=True):
-    d = draw(st.sampled_from([0, 0, 1, 2, 3, 5]))
-    s0, spec = draw(sources(d=d))
+def _delay_cases(draw, abs_ok=True, other_ok=True, max_len=5, ds=(0, 0, 1, 2, 3, 5)):
+    d = draw(st.sampled_from(list(ds)))
+    s0, spec = draw(sources(d=d, max_len=max_len))
     form = draw(st.sampled_from(FORMS_REL + (["abs"] if abs_ok else [])))
     # second subscription of the same observable; an absolute due time must not lie before it
     s1 = second_sub(draw, s0, limit=d if form == "abs" else None)
@@ -341,9 +346,9 @@ def _delay_cases(draw, abs_ok=True, other_ok=True):
 
 
 @st.composite
-def _dwm_cases(draw, subdelay=False):
+def _dwm_cases(draw, subdelay=False, max_len=4):
     kinds = ("cold", "cold", "sync")
-    s0, spec = draw(sources(d=2, kinds=("cold", "cold", "sync"), max_len=4))
+    s0, spec = draw(sources(d=2, kinds=("cold", "cold", "sync"), max_len=max_len))
     n = nelems(spec)
     durs = [draw(triggers(kinds=kinds)) for _ in range(n)]
     sd = None
@@ -361,10 +366,12 @@ def _stamp_cases(draw):
 
 def checks(tier):
     T = 16
+    # thorough explores deeper: up to 10 elements per timeline (8 for delay_with_mapper) and delays up to 8 ticks
+    deep = {} if tier == "quick" else {"max_len": 10, "ds": (0, 1, 2, 3, 5, 8, 8)}
     return [
-        Check("delay", _run_delay, strategy=_delay_cases(), examples={"quick": 2400, "thorough": T * 12000}, shards={"quick": 4, "thorough": 16}),
+        Check("delay", _run_delay, strategy=_delay_cases(**deep), examples={"quick": 2400, "thorough": T * 12000}, shards={"quick": 4, "thorough": 16}),
         Check("delay_subscription", _run_delaysub, strategy=_delay_cases(other_ok=False), examples={"quick": 1200, "thorough": T * 5000}, shards={"quick": 4, "thorough": 16}),
-        Check("delay_with_mapper", _run_dwm, strategy=_dwm_cases(), examples={"quick": 2000, "thorough": T * 8000}, shards={"quick": 4, "thorough": 16}),
+        Check("delay_with_mapper", _run_dwm, strategy=_dwm_cases(max_len=4 if tier == "quick" else 8), examples={"quick": 2000, "thorough": T * 8000}, shards={"quick": 4, "thorough": 16}),
         Check("stamp", _run_stamp, strategy=_stamp_cases(), examples={"quick": 800, "thorough": T * 4000}, shards={"quick": 4, "thorough": 16}),
         Check("delay_with_mapper_subdelay", _run_dwm, strategy=_dwm_cases(subdelay=True), examples={"quick": 1000, "thorough": T * 5000}, shards={"quick": 4, "thorough": 16}),
     ]
